@@ -51,8 +51,25 @@ class Matcher:
     stopped at the hardline); demote - unrestricted demotion (Sem.Lay);
     fill_unab - see module docstring."""
 
-    def __init__(self, stream, flat_hardline=True, demote=True, fill_unab=True):
+    def __init__(self, stream, flat_hardline=True, demote=True, fill_unab=True, fit=None):
         self.s = stream
+        self.fit = fit          # (w, rw): a flat group's line must end within page and ribbon
+        col = 0
+        cols = []
+        for it in stream:
+            if it[0] == 'T':
+                col += len(it[1])
+            elif it[0] == 'L':
+                col = it[1]
+            cols.append(col)
+        # column at the end of the line containing stream position p
+        self.line_end = [0] * (len(stream) + 1)
+        end = cols[-1] if cols else 0
+        for p in range(len(stream) - 1, -1, -1):
+            self.line_end[p] = end
+            if stream[p][0] == 'L':
+                end = cols[p - 1] if p > 0 else 0
+        self.line_end[len(stream)] = cols[-1] if cols else 0
         self.fh = flat_hardline
         self.dm = demote
         self.fu = fill_unab
@@ -112,7 +129,18 @@ class Matcher:
             return self.lay(mode, i + d[1], c, d[2], pos, gs)
         if k == 'G':
             g2 = gs if (mode == FLAT and gs is not None) else pos
-            return self.lay(FLAT, i, c, d[1], pos, g2) | self.lay(BREAK, i, c, d[1], pos)
+            flat = self.lay(FLAT, i, c, d[1], pos, g2)
+            if self.fit is not None:
+                w, rw = self.fit
+                # the line on which the group starts (a leading line break belongs to the next line)
+                if pos < len(self.s) and self.s[pos][0] != 'L':
+                    le = self.line_end[pos]
+                else:
+                    le = c
+                if le > min(w, i + rw):
+                    # the line carrying this group's text overflows: only an empty group may be flat
+                    flat = {(p, cc) for (p, cc) in flat if p == pos}
+            return flat | self.lay(BREAK, i, c, d[1], pos)
         if k == 'AB':
             if mode == FLAT and not self.may_demote(pos, gs):
                 return []
